@@ -38,7 +38,8 @@ fn clamp_tok(c: Option<(f32, f32)>) -> String {
 }
 
 pub fn generate(g: &mut Gen) {
-    let clamps: Vec<Option<(f32, f32)>> = vec![None, Some((-0.5, 0.5)), Some((-1.0, 1.0)), Some((0.1, 0.1)), Some((-1e-3, 2.0))];
+    let clamps: Vec<Option<(f32, f32)>> = vec![None, Some((-0.5, 0.5)), Some((-1.0, 1.0)), Some((0.1, 0.1)), Some((-1e-3, 2.0)),
+        Some((-0.25, f32::INFINITY)), Some((f32::NEG_INFINITY, 0.25)), Some((f32::NEG_INFINITY, f32::INFINITY)), Some((0.0, 0.0))];
     // deterministic core: 7 objectives x 2 ranks x clamp on/off x interior/boundary
     for o in OBJS.iter() {
         for boundary in [false, true] {
@@ -81,6 +82,16 @@ pub fn generate(g: &mut Gen) {
             g.push(format!("obj.loss {} {} {} {}", o, clamp_tok(c), qt(&t1), qt(&p1)), Tol::Tight, &format!("{}/near-equal/1d-swapped", o), true);
             let to3 = |v: &Vec<f32>| Tensor::triple(v.chunks(4).map(|m| m.chunks(2).map(|r| r.to_vec()).collect()).collect());
             g.push(format!("obj.loss {} {} {} {}", o, clamp_tok(c), qt(&to3(&p)), qt(&to3(&t))), Tol::Tight, &format!("{}/near-equal/3d", o), true);
+        }
+    }
+    // the objective configured through the network, twice in a row: the second configuration decides alone (no clamp,
+    // objective or interval carried over from the first)
+    for (i, o) in OBJS.iter().enumerate() {
+        let o1 = OBJS[(i + 3) % OBJS.len()];
+        let (p, t) = pair(g, o, 4, false);
+        let (p1, t1) = (Tensor::single(p.clone()), Tensor::single(t.clone()));
+        for (c1, c2) in [(Some((-0.01f32, 0.01f32)), None), (None, Some((-0.5f32, 0.5f32))), (Some((-0.01, 0.01)), Some((-0.5, 0.5))), (Some((0.3, 0.3)), None)] {
+            g.push(format!("obj.reset {} {} {} {} {} {}", o1, clamp_tok(c1), o, clamp_tok(c2), qt(&p1), qt(&t1)), Tol::Tight, &format!("{}/reconfigured", o), true);
         }
     }
     // seeded random stream
